@@ -100,3 +100,28 @@ Theorem C12_redis_merge_is_combined_stream : forall (cpos : N -> N -> bytes -> l
     refines rows cols s' b (run_hist cpos sb hb).
 Proof. exact RedisCMSMerge.redis_merge_is_combined_stream. Qed.
 Print Assumptions C12_redis_merge_is_combined_stream.
+
+(* non-vacuity: two new Redis sketches created one after the other in one store meet the premises
+   of the end-to-end theorem (with empty histories) *)
+From GX.Proofs Require Import NonVacuity.
+From Coq Require Import Lia.
+Example C12_redis_two_sketches_in_one_store :
+  exists s a b sa sb, cms_new 2 3 = Ok sa /\ cms_new 2 3 = Ok sb /\
+    refines 2 3 s a (run_hist cpos1 sa []) /\ refines 2 3 s b (run_hist cpos1 sb []) /\
+    length (rc_key a) = length (rc_key b) /\ rc_key a <> rc_key b.
+Proof.
+  destruct (cms_new 2 3) as [m0|e|p] eqn:Em; try (vm_compute in Em; discriminate).
+  exists (snd (rcms_new (snd (rcms_new [] 2 3 k_a k_m)) 2 3 k_b k_n)), (mkRcms 2 3 0 k_a k_m), (mkRcms 2 3 0 k_b k_n), m0, m0.
+  split; [reflexivity|]. split; [reflexivity|].
+  vm_compute in Em. injection Em as <-.
+  assert (R : forall key, (key = k_a \/ key = k_b) ->
+     rows_are 2 (snd (rcms_new (snd (rcms_new [] 2 3 k_a k_m)) 2 3 k_b k_n)) key (Lm (mkCms 2 3 0 [[0;0;0];[0;0;0]]))).
+  { intros key Hk r Hr. assert (r = 0 \/ r = 1) as [->| ->] by lia; destruct Hk as [->| ->]; vm_compute; reflexivity. }
+  split; [|split; [|split; [reflexivity|vm_compute; discriminate]]].
+  - split; [reflexivity|]. split; [reflexivity|]. split; [|apply R; left; reflexivity].
+    unfold run_hist; cbn [fold_left]. split; [reflexivity|]. split; [reflexivity|]. split; [reflexivity|].
+    intros r Hr. assert (r = 0 \/ r = 1)%nat as [->| ->] by lia; reflexivity.
+  - split; [reflexivity|]. split; [reflexivity|]. split; [|apply R; right; reflexivity].
+    unfold run_hist; cbn [fold_left]. split; [reflexivity|]. split; [reflexivity|]. split; [reflexivity|].
+    intros r Hr. assert (r = 0 \/ r = 1)%nat as [->| ->] by lia; reflexivity.
+Qed.
